@@ -17,4 +17,4 @@ def run(tier):
 MANIFEST = dict(engine='mc', level='model_checking',
   technique='explicit-state BFS over the real IRCServer with a pre/post state diff monitor checking every privileged effect against the pre-state entitlement',
   text='For every transition of the bounded exploration the difference between pre- and post-state (members removed, sessions closed, channel modes/keys/bans/op flags, topics, invitations, network bans, operator and services status, new memberships through JOIN) is checked against the entitlement of the acting session computed from the pre-state, including an independent captcha verifier and ban matcher.',
-  note='Bounds as C06. Effects caused by services links are accepted once the link authenticated with a configured password (checked when the status is granted).')
+  note='Bounds as C06. Effects caused by services links are accepted once the link authenticated with a configured password (checked when the status is granted). Requests without effect are repeated on a node restored from a snapshot of the same state: a different answer together with a state change there is a grant the node refused.')
